@@ -609,6 +609,25 @@ def gen_functional(repo: Path, notes: list) -> str:
 
 OBJ_CLASS_NAMES = {"bool", "int", "str", "list", "tuple", "set", "frozenset", "dict", "Options", "RuntimeContext", "Mapping",
                    "type", "Iterable"}
+EXC_SUBCLASSES: dict = {}      # utype exception class -> the classes defined below it (filled by `load_exc_subclasses`)
+
+
+def load_exc_subclasses(repo: Path):
+    """the class tree of utype/utils/exceptions.py: name -> every class derived from it, in source order"""
+    EXC_SUBCLASSES.clear()
+    try:
+        tree = ast.parse((repo / "utype/utils/exceptions.py").read_text())
+    except Exception:
+        return
+    classes = [(n.name, [b.id for b in n.bases if isinstance(b, ast.Name)]) for n in tree.body if isinstance(n, ast.ClassDef)]
+    for name, _ in classes:
+        below = []
+        for c, bases in classes:        # source order: a base is always written before its subclasses
+            if c != name and any(b == name or b in below for b in bases):
+                below.append(c)
+        EXC_SUBCLASSES[name] = below
+
+
 OBJ_EXC_BUILTIN = {"TypeError", "ValueError", "KeyError", "IndexError", "AttributeError", "Exception"}
 
 
@@ -758,8 +777,16 @@ class ObjTranslator:
                 return "dict_" + a.func.attr
         self.fail(e, "class expression")
 
-    def cls_list(self, e) -> str:
-        names = [self.cls_name(x) for x in e.elts] if isinstance(e, ast.Tuple) else [self.cls_name(e)]
+    def cls_list(self, e, subclasses=False) -> str:
+        elts = e.elts if isinstance(e, ast.Tuple) else [e]
+        names = []
+        for x in elts:
+            n = self.cls_name(x)
+            names.append(n)
+            if subclasses and isinstance(x, ast.Attribute) and isinstance(x.value, ast.Name) and x.value.id == "exc":
+                # `isinstance(v, exc.X)`: an instance of a class is an instance of its bases — the classes written in
+                # utype/utils/exceptions.py below X count too (the value layer knows an object's own class name only)
+                names += [m for m in EXC_SUBCLASSES.get(n, []) if m not in names]
         return "[" + ", ".join(json.dumps(n) for n in names) + "]"
 
     # ---- expressions: (code, pure); pure code : OVal V, impure code : M V (OVal V) ------------------------------
@@ -1054,7 +1081,7 @@ class ObjTranslator:
                 return f"(← callable {self.atom(a[0])})"
             if n == "isinstance" and len(a) == 2:
                 try:
-                    return f"(← isinstance {self.atom(a[0])} {self.cls_list(a[1])})"
+                    return f"(← isinstance {self.atom(a[0])} {self.cls_list(a[1], subclasses=True)})"
                 except Untranslatable:
                     # the class is a computed value (`isinstance(_cls, metaclass)`): the world answers for that value
                     return f"(← truthy (← W.ext \"isinstance\" [{self.atom(a[0])}, {self.atom(a[1])}]))"
@@ -2176,6 +2203,7 @@ def main():
     outd.mkdir(parents=True, exist_ok=True)
     notes: list[str] = []
     files = {}
+    load_exc_subclasses(repo)
     tables, js = gen_tables(repo, notes)
     files["Tables.lean"] = tables
     files["Constraints.lean"] = gen_constraints(repo, notes)
